@@ -15,6 +15,27 @@ CHECKS = {
  "C03": ("fault_enumeration", "step-bound guard (sys.monitoring LINE events on the decoder loops) + exception-class oracle over systematic corruptions",
          "Every truncation point, every length field at every depth set to small/adjacent/extreme values (thorough: all 2^24 values at two fields), bit flips of all header bytes, typed payload faults for all dictionary classes, trailing garbage and random strings are decoded by the real code under an iteration guard; anything but 'returns' or 'library error within the step bound' is a violation. The live-node half (part B) is decided by the scheduler-based scenario runs.",
          "bound is 4*len+64 loop iterations; exceptions are classified by the module that defines them", "3 C03"),
+ "C04": ("exploration", "history checker (sent vs delivered) over executions of the real node under a deterministic scheduler and a substituted transport",
+         "Message sequences x segmentations (every split position of a short stream, byte-at-a-time, header-internal, random, coalescing) x recv-size scripts x schedules (round robin; random walk with line-level preemption) are executed against a real Diameter node; the sequence returned by get_message() and the order in which the state machine consumes messages are compared with what the scripted peer sent.",
+         "vnet is a model of Linux TCP sockets; schedules are explored at synchronisation-operation and source-line granularity; bounded progress on a virtual clock", "3 C04"),
+ "C05": ("exploration", "history checker (submitted vs written) + conservation over executions under the deterministic scheduler with partial-write scripts",
+         "1..4 submitter tasks x message sizes x partial-write scripts (fixed, random, zero-window) x inbound traffic x schedules; the bytes the substituted socket accepted are decoded by the reference decoder and matched against the submitted messages (exactly once, whole, per-submitter order, only whole node-originated base messages besides).",
+         "as C04", "3 C05"),
+ "C06": ("exploration", "online trace checker: real node vs hand-written reference transition model at quiescent points (exhaustive event sequences to a stated depth)",
+         "All sequences over a 19-event alphabet to depth 2 (quick) / 3 (thorough) from each model state, both roles, 0/1/3 applications, plus random longer sequences; hard clauses H1-H9 are violations, soft cells are reported as model drift.",
+         "the reference model (bvm/scen.py) is hand-written from the property statement and RFC 6733; comparison at quiescent points under round-robin scheduling and virtual time", "3 C06"),
+ "C07": ("exploration", "request/answer matcher over the emitted stream (reference decoder), incl. reconnects of the same node object",
+         "Sequences of base requests with boundary/random/repeated identifier pairs, back-to-back or segmented, interleaved with application traffic and send-queue floods, both roles, 1..3 connections per node object; every emitted CEA/DWA/DPA must pair with exactly one request and leave the socket before the next inbound message is taken.",
+         "identifier pairs are sampled, not enumerated", "3 C07"),
+ "C08": ("fault_enumeration", "end-of-life monitor (Closed, sockets released, tasks finished, blocked callers returned, restart works) over cause x life-cycle point x schedule",
+         "Termination causes {local close, peer DPR, peer disconnect, peer reset, refused connection} x life-cycle points {during connect, before CE, Open idle/inbound queued/outbound queued, consumer blocked, Closing} x roles x schedules; deadlocks and spins are detected by the scheduler.",
+         "bounds on the virtual clock and step counter; vnet reproduces Linux errno sequences observed on the real loopback", "3 C08"),
+ "C13": ("exploration", "dispatch trace checker over a real Bromelia object with in-process workers and a recording connection layer",
+         "Route tables of 1..4 applications x 1..4 command codes x typed requests x handler outcomes; which handler ran and what reached the connection layer are compared with a route-table model and the fallback rule.",
+         "workers are in-process (fake manager); requests the fallback cannot be built for are observed, not judged", "3 C13"),
+ "C14": ("exploration", "rendezvous history checker under the deterministic scheduler (callers, real send_handler, wire task, real dispatch threads)",
+         "1..6 callers x all answer permutations (k<=4) x release policies x schedules with line-level preemption inside bromelia/bromelia.py; deadlock detection and bounded progress decide 'always wakes'.",
+         "in-process workers; cross-process effects of Bromelia.run() are out of reach", "3 C14"),
  "C09": ("exploration", "reference-model runtime monitor on the typed constructors (vendored command table, argument->AVP rule, reference codec round trip)",
          "All 50 typed command classes x optional-argument subsets x generated in-domain values x extra keyword AVPs; header, order, mandatory-once, argument class and round trip are judged; omission of default-less mandatory arguments must raise a library error.",
          "command table written from the RFCs/3GPP TS (bvm/refdict.py); three genuine defects are recorded as known findings", "3 C09"),
